@@ -8,7 +8,7 @@ CFG = dict(
          "reluctant variants and shapes Compile rejects; DEFINE over the current row, PREV and one aggregate, with forced or "
          "overlapping classification; every SKIP mode; WITHIN; ONE/ALL ROWS PER MATCH) and one interleaved stream of <= 12 rows "
          "over 1-3 partitions, run on cep.Engine directly (observables per Process/Flush) or through SQL (Execute/Emit/Stop); "
-         "distinct = distinct (cfg, op list)",
+         "distinct = distinct (cfg, op list) Added late: the partition cap set to exactly the number of partitions of the case (`pcap`). Every fifth case runs under WithHighPerformance (`preset high`), for C05/C06/C12/C13/C14/C16/C20 another fifth under WithLowLatency (`preset low`); every seventh case follows a noise prelude (failing statements, malformed rows, panicking sink / function in other instances).",
     unproved=[
         "C15.reference_pruning_complete : the oracle's reference matcher is run with a pruned state key (variables no DEFINE "
         "condition looks back at are collapsed, to keep the brute force polynomial); that this pruning loses no match length is "
